@@ -45,14 +45,9 @@ class TlcResult:
         self.depth = int(m.group(1)) if m else 0
 
     def printed(self, tag):
-        """lines printed with PrintT(<<tag, x>>) -> list of x strings (raw)."""
-        res = []
-        pat = re.compile(r'^<<"%s", (.*)>>$' % re.escape(tag))
-        for line in self.out.splitlines():
-            m = pat.match(line.strip())
-            if m:
-                res.append(m.group(1))
-        return res
+        """values printed with PrintT(<<tag, "string">>) -> list of the quoted strings (raw, with quotes)."""
+        pat = re.compile(r'<<\s*"%s",\s*("(?:[^"\\]|\\.)*")\s*>>' % re.escape(tag))
+        return pat.findall(self.out)
 
 
 class Run:
@@ -115,8 +110,9 @@ class Run:
 
     # ---------------------------------------------------------------- TLC
     def tlc(self, module, cfg=None, workers=None, simulate=None, depth=None, timeout=900,
-            deque=False, heap="6g", extra=(), name=None, allow_violation=False):
+            deque=False, heap="6g", extra=(), name=None, allow_violation=False, cwd=None):
         cfg = cfg or (module + ".cfg")
+        cwd = cwd or self.spec
         meta = tempfile.mkdtemp(prefix="meta-", dir=self.scratch)
         cmd = ["java", "-XX:+UseParallelGC", "-Xmx" + heap, "-Xss64m"]
         if deque:
@@ -131,16 +127,16 @@ class Run:
         cmd.append(module + ".tla")
         t = time.time()
         try:
-            p = subprocess.run(cmd, cwd=self.spec, stdout=subprocess.PIPE, stderr=subprocess.STDOUT,
+            p = subprocess.run(cmd, cwd=cwd, stdout=subprocess.PIPE, stderr=subprocess.STDOUT,
                                text=True, timeout=timeout)
         except subprocess.TimeoutExpired as ex:
             subprocess.run(["pkill", "-f", meta], check=False)
             raise Inconclusive("TLC %s/%s timed out after %ss" % (module, cfg, timeout))
         finally:
             shutil.rmtree(meta, ignore_errors=True)
-            for f in os.listdir(self.spec):
+            for f in os.listdir(cwd):
                 if "_TTrace_" in f:
-                    os.unlink(os.path.join(self.spec, f))
+                    os.unlink(os.path.join(cwd, f))
         r = TlcResult(p.returncode, p.stdout, time.time() - t)
         if name:
             self.mc.append({"name": name, "generated": r.generated, "distinct": r.distinct,
@@ -157,18 +153,25 @@ class Run:
         return r
 
     # ---------------------------------------------------------------- trace validation
-    def validate(self, module, cfg, ndjson, timeout=900, deque=False, heap="6g", fname="trace.ndjson"):
-        """Run the trace spec over one NDJSON file.  Returns (accepted, line, detail, TlcResult)."""
-        dst = os.path.join(self.spec, fname)
-        if os.path.abspath(ndjson) != dst:
-            shutil.copyfile(ndjson, dst)
-        r = self.tlc(module, cfg, workers=1, timeout=timeout, deque=deque, heap=heap, allow_violation=True)
-        m = re.search(r'<<"REJECTED_AT_LINE", (\d+)', r.out)
+    def validate(self, module, cfg, ndjson, timeout=900, deque=False, heap="4g", fname="trace.ndjson"):
+        """Run the trace spec over one NDJSON file (in a private copy of the spec directory, so
+        that several validations can run concurrently).  Returns (accepted, line, detail, TlcResult)."""
+        cwd = tempfile.mkdtemp(prefix="tv-", dir=self.scratch)
+        try:
+            for f in os.listdir(self.spec):
+                if f.endswith(".tla") or f.endswith(".cfg"):
+                    shutil.copyfile(os.path.join(self.spec, f), os.path.join(cwd, f))
+            os.link(ndjson, os.path.join(cwd, fname)) if os.stat(ndjson).st_dev == os.stat(cwd).st_dev \
+                else shutil.copyfile(ndjson, os.path.join(cwd, fname))
+            r = self.tlc(module, cfg, workers=1, timeout=timeout, deque=deque, heap=heap, allow_violation=True, cwd=cwd)
+        finally:
+            shutil.rmtree(cwd, ignore_errors=True)
+        m = re.search(r'<<\s*"REJECTED_AT_LINE",\s*(\d+)', r.out)
         if m:
             return False, int(m.group(1)), r.out[-2500:], r
         if r.violated:
             # an invariant failed on a state reached while following the trace
-            m2 = re.findall(r'<<"AT_LINE", (\d+)>>', r.out)
+            m2 = re.findall(r'<<\s*"AT_LINE",\s*(\d+)\s*>>', r.out)
             line = int(m2[-1]) if m2 else -1
             return False, line, "invariant %s violated\n%s" % (r.violated, r.out[-2500:]), r
         if r.rc != 0:
@@ -176,6 +179,26 @@ class Run:
         if "TRACE_ACCEPTED" not in r.out:
             raise Inconclusive("trace validation %s: no verdict in output:\n%s" % (module, r.out[-3000:]))
         return True, 0, "", r
+
+
+def tla_json(s):
+    """a TLA+ string value as printed by TLC (with quotes) holding JSON -> python object"""
+    return json.loads(json.loads(s))
+
+
+def gen_behaviours(run, module, cfg_name, cfg_text, simulate=None, depth=None, tag="BEHAV", timeout=1800, workers=1):
+    """Run a generator spec; -> de-duplicated list of behaviours (parsed JSON)."""
+    with open(os.path.join(run.spec, cfg_name), "w") as f:
+        f.write(cfg_text)
+    r = run.tlc(module, cfg_name, workers=workers, simulate=simulate, depth=depth, name="gen:" + cfg_name, timeout=timeout)
+    seen = set()
+    res = []
+    for s in r.printed(tag):
+        if s in seen:
+            continue
+        seen.add(s)
+        res.append(tla_json(s))
+    return res
 
 
 def load_events(path):
@@ -193,28 +216,27 @@ def split_scenarios(events, marker=lambda e: e.get("op") == "new"):
     return res
 
 
-def validate_scenarios(run, module, cfg, events, max_rejections=8, marker=None, **kw):
-    """Validate a concatenation of scenarios; on a rejection record the scenario, drop it and
-    go on with the rest, so that one failure does not hide the others.
-    -> (n_validated, [ {scenario:[events], line_in_scenario:int, detail:str} ])"""
-    marker = marker or (lambda e: e.get("op") == "new")
-    scns = split_scenarios(events, marker)
+def _validate_chunk(run, module, cfg, scns, cid, max_rejections, kw):
+    """scns: list of scenarios, each a list of raw NDJSON lines."""
     rejected = []
-    remaining = [s[1] for s in scns]
+    remaining = scns
     validated = 0
     tlc_states = 0
+    rounds = 0
     while remaining:
-        path = os.path.join(run.scratch, "batch.ndjson")
+        rounds += 1
+        path = os.path.join(run.scratch, "batch-%d-%d.ndjson" % (cid, rounds))
         with open(path, "w") as f:
             for s in remaining:
-                for e in s:
-                    f.write(json.dumps(e, separators=(",", ":")) + "\n")
-        ok, line, detail, r = run.validate(module, cfg, path, **kw)
+                f.writelines(s)
+        try:
+            ok, line, detail, r = run.validate(module, cfg, path, **kw)
+        finally:
+            os.unlink(path)
         tlc_states += r.generated
         if ok:
             validated += len(remaining)
             break
-        # locate scenario
         acc = 0
         idx = None
         for i, s in enumerate(remaining):
@@ -224,12 +246,71 @@ def validate_scenarios(run, module, cfg, events, max_rejections=8, marker=None, 
             acc += len(s)
         if idx is None:
             raise Inconclusive("rejection line %d outside trace (%d lines)\n%s" % (line, acc, detail))
-        rejected.append({"scenario": remaining[idx], "line": line - acc, "detail": detail})
+        rejected.append({"scenario": [json.loads(x) for x in remaining[idx]], "line": line - acc, "detail": detail})
         validated += idx
         remaining = remaining[idx + 1:]
         if len(rejected) >= max_rejections:
             break
     return validated, rejected, tlc_states
+
+
+def validate_scenarios(run, module, cfg, events, max_rejections=8, marker='"op":"new"', chunk_events=250000,
+                       jobs=None, **kw):
+    """Validate a concatenation of scenarios with the trace spec `module`.
+    `events` is the path of an NDJSON trace (or a list of event dicts); a scenario starts at every
+    line containing `marker`.  The scenarios are cut into chunks of about chunk_events events which
+    are validated by concurrent TLC processes; on a rejection the scenario is recorded and dropped
+    and the rest of its chunk is still checked, so that one failure does not hide the others.
+    -> (n_validated, [ {scenario:[events], line:int (1-based, in scenario), detail:str} ], tlc_states)"""
+    from concurrent.futures import ThreadPoolExecutor
+    if isinstance(events, str):
+        with open(events) as f:
+            lines = f.readlines()
+    else:
+        lines = [json.dumps(e, separators=(",", ":")) + "\n" for e in events]
+    chunks, cur, n = [], [], 0
+    scn = None
+    for ln in lines:
+        if marker in ln or scn is None:
+            if n >= chunk_events:
+                chunks.append(cur)
+                cur, n = [], 0
+            scn = []
+            cur.append(scn)
+        scn.append(ln)
+        n += 1
+    if cur:
+        chunks.append(cur)
+    jobs = jobs or max(1, min(NCPU // 2, 8))
+    validated, rejected, states = 0, [], 0
+    with ThreadPoolExecutor(max_workers=jobs) as ex:
+        futs = [ex.submit(_validate_chunk, run, module, cfg, c, i, max_rejections, kw) for i, c in enumerate(chunks)]
+        for f in futs:
+            v, rj, st = f.result()
+            validated += v
+            rejected += rj
+            states += st
+    return validated, rejected[:max_rejections * 2], states
+
+
+def count_lines(path, marker=None):
+    n = m = 0
+    with open(path) as f:
+        for ln in f:
+            n += 1
+            if marker and marker in ln:
+                m += 1
+    return n, m
+
+
+def head_events(path, k=8):
+    out = []
+    with open(path) as f:
+        for ln in f:
+            out.append(json.loads(ln))
+            if len(out) >= k:
+                break
+    return out
 
 
 # -------------------------------------------------------------------- known findings
